@@ -125,9 +125,10 @@ def r2_attributes(ctx):
             f = cls.method(mname)
             if f is None:
                 raise AnalysisError(f"{cq}.{mname} not found (attribute {attr})")
-            reads = _live_reads(f, attr)
-            alt = "_" + attr
-            reads += _live_reads(f, alt) if not reads else []
+            reads = []
+            for g in same_module_helpers(ix, f):
+                reads += _live_reads(g, attr)
+                reads += _live_reads(g, "_" + attr) if not reads else []
             ctx.ob("R2", f, f"schema attribute `{attr}` is consulted by {f.short}", bool(reads),
                    f"{len(reads)} live read(s)" if reads else
                    f"{f.short} never reads `.{attr}` outside message strings: the declared constraint cannot influence it")
